@@ -105,7 +105,8 @@ where
                 let _ = std::mem::replace(&mut self.elements[*size - (i + 1)], new_el);
                 Ok(())
             }
-            Some(diff) => Err(diff + 1),
+            // the offset saturates (position usize::MAX on an empty stack)
+            Some(diff) => Err(diff.saturating_add(1)),
         }
     }
 
